@@ -161,6 +161,16 @@ Theorem C09_oracle_sound : forall c : case, corr_b c = true -> prop_b c = true.
 Proof. exact Proofs.CorrC09.oracle_no_stricter_than_model. Qed.
 Print Assumptions C09_oracle_sound.
 
+(** Persist / restore of the engine state is a no-op of the model: runs are invariant under
+    inserting such steps anywhere.  The correspondence check performs real serde_json round
+    trips of every component the property covers (asset states, instrument market data,
+    orders) in the middle of histories and requires them to be the identity on the
+    implementation too (in particular: held exchange timestamps keep their full resolution). *)
+Theorem C09_persist_invariant : forall (xs : list xev) (e : engine),
+  fold_left xstep9 xs e = erun9 (evs_of xs) e.
+Proof. exact Proofs.CorrC09.persist_invariant. Qed.
+Print Assumptions C09_persist_invariant.
+
 (** Non-vacuity: seven events in a "bad" order — balances at t=2, t=1 (late), t=2 (tie) and a
     full snapshot carrying t=3 then t=2 for the same asset; trades at t=5, t=4 (late), t=5 (tie);
     L1 at t=7 then t=6 (late); an order reported open at t=9 then t=8 (late) — leave the engine
